@@ -11,7 +11,10 @@ wt = tempfile.mkdtemp(prefix='rebased-', dir='/tmp')
 os.rmdir(wt)
 sh(['git', 'worktree', 'add', '--detach', wt, 'HEAD'], '/repo')
 try:
+    only = set(sys.argv[1:])
     for pth in sorted(glob.glob('/verif/seeded/*/patch-rebased.diff')):
+        if only and os.path.basename(os.path.dirname(pth)) not in only:
+            continue
         d = os.path.dirname(pth)
         sh(['git', 'checkout', '--', '.'], wt)
         rc0 = sh([PY, '-B', os.path.join(d, 'demo.py')], wt, {'PYTHONPATH': wt}).returncode
